@@ -1033,6 +1033,24 @@ func ruleCC5(c *Ctx) *rule {
 					wait = w
 				}
 			}
+			if _, clDeferred := cl.(*ssa.Defer); clDeferred && wait == nil && cl.Block() == cl.Parent().Blocks[0] {
+				// `defer close(results); wg.Wait()`: the deferred close runs when the goroutine returns, and every return
+				// comes after the Wait
+				for _, w := range wg.wait {
+					if _, wDeferred := w.(*ssa.Defer); wDeferred || w.Parent() != cl.Parent() {
+						continue
+					}
+					all := true
+					for _, ret := range returnsOf(cl.Parent()) {
+						if !before(w, ret) {
+							all = false
+						}
+					}
+					if all {
+						wait = w
+					}
+				}
+			}
 			if wait == nil {
 				r.bad(key, c.ipos(cl), "the results channel is closed without first waiting for the wait group of its senders")
 			} else if _, isDefer := wait.(*ssa.Defer); isDefer {
